@@ -7,7 +7,7 @@
 #include <string.h>
 #include <stdint.h>
 
-#define LTV_MAXTOK 64
+#define LTV_MAXTOK 16384
 static char *ltv_line;
 static size_t ltv_cap;
 static char *ltv_tok[LTV_MAXTOK];
